@@ -1,0 +1,44 @@
+//go:build verif
+// +build verif
+
+package network
+
+import (
+	"go.dedis.ch/kyber/v3"
+)
+
+// Accessors for the verification harness (property C08); compiled only with
+// the build tag "verif".
+
+// VerifMakeVerifier exposes makeVerifier: the closure crypto/tls calls with
+// the peer's raw certificates, and the nonce it was made for. them == nil is
+// the accepting role.
+func VerifMakeVerifier(suite Suite, them *ServerIdentity) (func(rawCerts [][]byte) error, []byte) {
+	vrf, nonce := makeVerifier(suite, them)
+	return func(rawCerts [][]byte) error { return vrf(rawCerts, nil) }, nonce
+}
+
+// VerifCertFor is what a node with identity si (private key set) presents to
+// a peer that handed it nonce: newCertMaker followed by certMaker.get. It
+// returns the raw certificates.
+func VerifCertFor(suite Suite, si *ServerIdentity, nonce []byte) ([][]byte, error) {
+	cm, err := newCertMaker(suite, si)
+	if err != nil {
+		return nil, err
+	}
+	c, err := cm.get(nonce)
+	if err != nil {
+		return nil, err
+	}
+	return c.Certificate, nil
+}
+
+// VerifPubFromCN exposes pubFromCN.
+func VerifPubFromCN(suite kyber.Group, cn string) (kyber.Point, error) {
+	return pubFromCN(suite, cn)
+}
+
+// VerifPubToCN exposes pubToCN.
+func VerifPubToCN(pub kyber.Point) string {
+	return pubToCN(pub)
+}
